@@ -91,13 +91,20 @@ Definition held (a : actor) : list nat :=
   match a_pc a with
   | PLocking k => firstn k (a_locks a)
   | PLocked k => firstn (S k) (a_locks a)
-  | PWLocked | PRootLoaded | PCommitIdx | PRootLocked | PRootStored | PRootUnlocked | PNotified
+  | PWLocked | PRootLoaded | PCommitIdx | PRootLocked | PCommitLoaded | PRootStored | PRootUnlocked | PNotified
   | PAbortBefore => a_locks a
   | _ => []
   end.
 
 Definition rholds (a : actor) : bool :=
-  match a_pc a with PRootLocked | PRootStored | PRegLocked | PRegStored => true | _ => false end.
+  match a_pc a with
+  | PRootLocked | PCommitLoaded | PRootStored | PRegLocked | PRegLoaded | PRegStored => true
+  | _ => false
+  end.
+
+(* the pcs between the root load inside the root lock and the root store *)
+Definition loaded (a : actor) : bool :=
+  match a_pc a with PCommitLoaded | PRegLoaded => true | _ => false end.
 
 (* the pcs at which an actor tries to acquire a lock *)
 Definition acquiring (a : actor) : bool :=
@@ -117,12 +124,12 @@ Definition pc_ok (k : kind) (p : pc) : bool :=
   | KWriter _ _ c _ _ =>
     match p with
     | PStart | PBeforeLock | PLocking _ | PLocked _ | PWLocked | PRootLoaded | PDone => true
-    | PCommitIdx | PRootLocked | PRootStored | PRootUnlocked | PNotified | PTabsUnlocked | PInitClosed => c
+    | PCommitIdx | PRootLocked | PCommitLoaded | PRootStored | PRootUnlocked | PNotified | PTabsUnlocked | PInitClosed => c
     | PAbortBefore | PAbortUnlocked => negb c
     | _ => false
     end
   | KRegistrar =>
-    match p with PStart | PRegBefore | PRegLocked | PRegStored | PRegUnlocked | PDone => true | _ => false end
+    match p with PStart | PRegBefore | PRegLocked | PRegLoaded | PRegStored | PRegUnlocked | PDone => true | _ => false end
   end.
 
 Definition locks_ok (a : actor) : Prop :=
@@ -174,7 +181,7 @@ Definition unlock_all (locks : list nat) (tl : list (option nat)) : list (option
 Inductive Step (s : st) (i : nat) (a : actor) :
   actor -> list tver -> list (option nat) -> option nat -> list N -> N -> Prop :=
 | S_wstart tabs wr c rg dn : a_kind a = KWriter tabs wr c rg dn -> a_pc a = PStart ->
-    Step s i a (mkA (a_id a) (a_kind a) PBeforeLock (lock_order tabs) [] [] [])
+    Step s i a (mkA (a_id a) (a_kind a) PBeforeLock (lock_order tabs) [] [] [] [])
          (s_root s) (s_tlock s) (s_rlock s) (s_closed s) (s_nextw s)
 | S_wbefore tabs wr c rg dn : a_kind a = KWriter tabs wr c rg dn -> a_pc a = PBeforeLock ->
     Step s i a (set_pc a (match a_locks a with [] => PWLocked | _ => PLocking 0 end))
@@ -187,22 +194,27 @@ Inductive Step (s : st) (i : nat) (a : actor) :
     Step s i a (set_pc a (if Nat.ltb (S k) (length (a_locks a)) then PLocking (S k) else PWLocked))
          (s_root s) (s_tlock s) (s_rlock s) (s_closed s) (s_nextw s)
 | S_wload tabs wr c rg dn : a_kind a = KWriter tabs wr c rg dn -> a_pc a = PWLocked ->
-    Step s i a (mkA (a_id a) (a_kind a) PRootLoaded (a_locks a) (s_root s) [] [])
+    Step s i a (mkA (a_id a) (a_kind a) PRootLoaded (a_locks a) (s_root s) [] [] (a_cur a))
          (s_root s) (s_tlock s) (s_rlock s) (s_closed s) (s_nextw s)
 | S_wwrite tabs wr rg dn es nt nw : a_kind a = KWriter tabs wr true rg dn -> a_pc a = PRootLoaded ->
     apply_writes (a_id a) wr rg dn (s_nextw s) (a_entries a) = (es, nt, nw) ->
-    Step s i a (mkA (a_id a) (a_kind a) PCommitIdx (a_locks a) es nt [])
+    Step s i a (mkA (a_id a) (a_kind a) PCommitIdx (a_locks a) es nt [] (a_cur a))
          (s_root s) (s_tlock s) (s_rlock s) (s_closed s) nw
 | S_wwrite_abort tabs wr rg dn es nt nw : a_kind a = KWriter tabs wr false rg dn -> a_pc a = PRootLoaded ->
     apply_writes (a_id a) wr rg dn (s_nextw s) (a_entries a) = (es, nt, nw) ->
-    Step s i a (mkA (a_id a) (a_kind a) PAbortBefore (a_locks a) es [] [])
+    Step s i a (mkA (a_id a) (a_kind a) PAbortBefore (a_locks a) es [] [] (a_cur a))
          (s_root s) (s_tlock s) (s_rlock s) (s_closed s) nw
 | S_wrlock tabs wr c rg dn : a_kind a = KWriter tabs wr c rg dn -> a_pc a = PCommitIdx -> s_rlock s = None ->
     Step s i a (set_pc a PRootLocked)
          (s_root s) (s_tlock s) (Some i) (s_closed s) (s_nextw s)
-| S_wstore tabs wr c rg dn root closing : a_kind a = KWriter tabs wr c rg dn -> a_pc a = PRootLocked ->
-    merge_root (a_locks a) (a_entries a) (s_root s) 0 = (root, closing) ->
-    Step s i a (mkA (a_id a) (a_kind a) PRootStored (a_locks a) root (a_notify a) closing)
+| S_wcload tabs wr c rg dn : a_kind a = KWriter tabs wr c rg dn -> a_pc a = PRootLocked ->
+    Step s i a (set_cur a PCommitLoaded (s_root s))
+         (s_root s) (s_tlock s) (s_rlock s) (s_closed s) (s_nextw s)
+(* the root store merges into the root LOADED at the previous step (a_cur); the Step case is stated for the
+   states in which that is still the current root (all reachable ones: Inv.inv_cur below) *)
+| S_wstore tabs wr c rg dn root closing : a_kind a = KWriter tabs wr c rg dn -> a_pc a = PCommitLoaded ->
+    merge_root (a_locks a) (a_entries a) (s_root s) 0 = (root, closing) -> a_cur a = s_root s ->
+    Step s i a (mkA (a_id a) (a_kind a) PRootStored (a_locks a) root (a_notify a) closing (a_cur a))
          root (s_tlock s) (s_rlock s) (s_closed s) (s_nextw s)
 | S_wrunlock tabs wr c rg dn : a_kind a = KWriter tabs wr c rg dn -> a_pc a = PRootStored ->
     Step s i a (set_pc a PRootUnlocked)
@@ -231,7 +243,10 @@ Inductive Step (s : st) (i : nat) (a : actor) :
 | S_rrlock : a_kind a = KRegistrar -> a_pc a = PRegBefore -> s_rlock s = None ->
     Step s i a (set_pc a PRegLocked)
          (s_root s) (s_tlock s) (Some i) (s_closed s) (s_nextw s)
-| S_rstore : a_kind a = KRegistrar -> a_pc a = PRegLocked ->
+| S_rcload : a_kind a = KRegistrar -> a_pc a = PRegLocked ->
+    Step s i a (set_cur a PRegLoaded (s_root s))
+         (s_root s) (s_tlock s) (s_rlock s) (s_closed s) (s_nextw s)
+| S_rstore : a_kind a = KRegistrar -> a_pc a = PRegLoaded -> a_cur a = s_root s ->
     Step s i a (set_pc a PRegStored)
          (s_root s ++ [mkV [] (s_nextw s) None]) (s_tlock s ++ [None]) (s_rlock s) (s_closed s) (s_nextw s + 1)%N
 | S_rrunlock : a_kind a = KRegistrar -> a_pc a = PRegStored ->
@@ -248,12 +263,13 @@ Lemma st_eta s : s = mkS (s_root s) (s_tlock s) (s_rlock s) (s_closed s) (s_next
 Proof. destruct s; reflexivity. Qed.
 
 Lemma step_spec s i a : nth_error (s_actors s) i = Some a -> enabled s i = true ->
-  pc_ok (a_kind a) (a_pc a) = true ->
+  pc_ok (a_kind a) (a_pc a) = true -> (loaded a = true -> a_cur a = s_root s) ->
   exists a' root tl rl cl nw, Step s i a a' root tl rl cl nw /\ step s i = post s i a' root tl rl cl nw.
 Proof.
-  intros Ha He Hok. unfold step. rewrite He, Ha. cbn [negb].
+  intros Ha He Hok Hcur. unfold step. rewrite He, Ha. cbn [negb].
   unfold enabled in He. rewrite Ha in He. clear Ha.
-  destruct a as [id kd p locks ents nts ics]. cbn [a_kind a_pc a_locks a_id a_entries a_notify a_initclose] in *.
+  destruct a as [id kd p locks ents nts ics cur]. unfold loaded in Hcur.
+  cbn [a_kind a_pc a_locks a_id a_entries a_notify a_initclose a_cur] in *.
   destruct kd as [tabs wr c rg dn|]; destruct p; cbn [pc_ok] in Hok; try discriminate;
     unfold post, set_actor; cbn [s_root s_tlock s_rlock s_closed s_nextw s_actors].
   - do 6 eexists; split; [eapply S_wstart; first [reflexivity|eassumption]|reflexivity].
@@ -270,7 +286,9 @@ Proof.
       do 6 eexists; split; [eapply S_wwrite_abort; first [reflexivity|eassumption]|reflexivity].
   - destruct (s_rlock s) eqn:Hr; [discriminate|].
     do 6 eexists; split; [eapply S_wrlock; first [reflexivity|eassumption]|reflexivity].
-  - destruct (merge_root locks ents (s_root s) 0) as [root closing] eqn:Hm.
+  - do 6 eexists; split; [eapply S_wcload; first [reflexivity|eassumption]|reflexivity].
+  - specialize (Hcur eq_refl). subst cur.
+    destruct (merge_root locks ents (s_root s) 0) as [root closing] eqn:Hm.
     do 6 eexists; split; [eapply S_wstore; first [reflexivity|eassumption]|reflexivity].
   - do 6 eexists; split; [eapply S_wrunlock; first [reflexivity|eassumption]|reflexivity].
   - do 6 eexists; split; [eapply S_wnotify; first [reflexivity|eassumption]|reflexivity].
@@ -282,7 +300,9 @@ Proof.
   - do 6 eexists; split; [eapply S_rstart; first [reflexivity|eassumption]|reflexivity].
   - destruct (s_rlock s) eqn:Hr; [discriminate|].
     do 6 eexists; split; [eapply S_rrlock; first [reflexivity|eassumption]|reflexivity].
-  - do 6 eexists; split; [eapply S_rstore; first [reflexivity|eassumption]|reflexivity].
+  - do 6 eexists; split; [eapply S_rcload; first [reflexivity|eassumption]|reflexivity].
+  - specialize (Hcur eq_refl). subst cur.
+    do 6 eexists; split; [eapply S_rstore; first [reflexivity|eassumption]|reflexivity].
   - do 6 eexists; split; [eapply S_rrunlock; first [reflexivity|eassumption]|reflexivity].
   - do 6 eexists; split; [eapply S_rdone; first [reflexivity|eassumption]|reflexivity].
 Qed.
@@ -297,7 +317,9 @@ Record Inv (ntab : nat) (s : st) : Prop := mkInv {
   inv_len : length (s_tlock s) = length (s_root s) /\ ntab <= length (s_tlock s);
   inv_ok : forall j b, nth_error (s_actors s) j = Some b -> actor_ok ntab b;
   inv_tl : forall t j, nth_error (s_tlock s) t = Some (Some j) <-> holds (s_actors s) j t;
-  inv_rl : forall j, s_rlock s = Some j <-> rholder (s_actors s) j
+  inv_rl : forall j, s_rlock s = Some j <-> rholder (s_actors s) j;
+  (* the root loaded inside the root lock is still the current root at the store *)
+  inv_cur : forall j b, nth_error (s_actors s) j = Some b -> loaded b = true -> a_cur b = s_root s
 }.
 
 Lemma holds_upd acts i a a' j t : nth_error acts i = Some a ->
@@ -342,7 +364,7 @@ Proof.
 Qed.
 
 Ltac step_simpl :=
-  cbn [a_kind a_pc a_locks a_id a_entries a_notify a_initclose set_pc] in *.
+  cbn [a_kind a_pc a_locks a_id a_entries a_notify a_initclose a_cur set_pc set_cur] in *.
 
 Lemma Step_actor_ok ntab s i a a' r tl rl cl nw :
   Step s i a a' r tl rl cl nw -> actor_ok ntab a -> actor_ok ntab a'.
@@ -473,6 +495,30 @@ Proof.
   - rewrite !app_length. cbn [length]. lia.
 Qed.
 
+Lemma loaded_rholds a : loaded a = true -> rholds a = true.
+Proof. unfold loaded, rholds. destruct (a_pc a); congruence. Qed.
+
+(* the root loaded inside the root lock stays the current root: the only steps that change the root are the
+   stores of the root-lock holder itself *)
+Lemma Step_cur ntab s i a a' r tl rl cl nw :
+  Inv ntab s -> nth_error (s_actors s) i = Some a -> Step s i a a' r tl rl cl nw ->
+  forall j b, nth_error (upd i (fun _ => a') (s_actors s)) j = Some b -> loaded b = true -> a_cur b = r.
+Proof.
+  intros HI Ha HS j b. rewrite nth_error_upd. destruct (Nat.eqb_spec i j) as [->|Hne].
+  - rewrite Ha. cbn [option_map]. intros Hb Hld. injection Hb as <-. revert Hld.
+    inversion HS; subst; unfold loaded; step_simpl; try discriminate; try reflexivity.
+    + destruct (a_locks a); discriminate.
+    + destruct (Nat.ltb (S k) (length (a_locks a))); discriminate.
+  - intros Hb Hld. rewrite (inv_cur _ _ HI _ _ Hb Hld).
+    assert (Hexcl : rholds a = true -> False).
+    { intros Hra. apply Hne.
+      assert (H1 : s_rlock s = Some i) by (apply (inv_rl _ _ HI); exists a; auto).
+      assert (H2 : s_rlock s = Some j) by (apply (inv_rl _ _ HI); exists b; split; [exact Hb|apply loaded_rholds; exact Hld]).
+      congruence. }
+    inversion HS; subst; try reflexivity;
+      exfalso; apply Hexcl; unfold rholds; match goal with Hpc : a_pc a = _ |- _ => rewrite Hpc end; reflexivity.
+Qed.
+
 Lemma enabled_actor s i : enabled s i = true -> exists a, nth_error (s_actors s) i = Some a.
 Proof. unfold enabled. destruct (nth_error (s_actors s) i) as [a|]; [eauto|discriminate]. Qed.
 
@@ -482,7 +528,7 @@ Lemma Inv_step_spec ntab s i : Inv ntab s -> enabled s i = true ->
     Step s i a a' root tl rl cl nw /\ step s i = post s i a' root tl rl cl nw.
 Proof.
   intros HI He. destruct (enabled_actor _ _ He) as [a Ha].
-  destruct (step_spec s i a Ha He (ok_pc _ _ (inv_ok _ _ HI _ _ Ha))) as (a'&r&tl&rl&cl&nw&HS&E).
+  destruct (step_spec s i a Ha He (ok_pc _ _ (inv_ok _ _ HI _ _ Ha)) (inv_cur _ _ HI _ _ Ha)) as (a'&r&tl&rl&cl&nw&HS&E).
   exists a, a', r, tl, rl, cl, nw. auto.
 Qed.
 
@@ -498,6 +544,7 @@ Proof.
     + apply (inv_ok _ _ HI).
   - eapply Step_tl; eauto.
   - eapply Step_rl; eauto.
+  - eapply Step_cur; eauto.
 Qed.
 
 (* well-formed actor lists: every table index a writer mentions exists from the start *)
@@ -523,6 +570,8 @@ Proof.
       destruct Hin.
   - intros j. split; [discriminate|].
     intros [b [Hb Hr]]. apply nth_error_In in Hb. apply in_map_iff in Hb. destruct Hb as [[id k] [<- _]].
+    discriminate.
+  - intros j b Hb. apply nth_error_In in Hb. apply in_map_iff in Hb. destruct Hb as [[id k] [<- _]].
     discriminate.
 Qed.
 
@@ -564,3 +613,15 @@ Proof. unfold rholds, acquiring. destruct (a_pc a); congruence. Qed.
 (* the root-lock holder's next step is always enabled *)
 Lemma rholds_enabled s i a : nth_error (s_actors s) i = Some a -> rholds a = true -> enabled s i = true.
 Proof. intros Ha Hr. unfold enabled. rewrite Ha. unfold rholds in Hr. destruct (a_pc a); congruence. Qed.
+
+(* while an actor is between its root load inside the root lock and its root store, the root it loaded is the
+   current root, and it holds the root lock *)
+Theorem loaded_root_is_current ntab s i a : Inv ntab s ->
+  nth_error (s_actors s) i = Some a -> a_pc a = PCommitLoaded \/ a_pc a = PRegLoaded ->
+  a_cur a = s_root s /\ s_rlock s = Some i.
+Proof.
+  intros HI Ha Hp.
+  assert (Hld : loaded a = true) by (unfold loaded; destruct Hp as [-> | ->]; reflexivity).
+  split; [apply (inv_cur _ _ HI _ _ Ha Hld)|].
+  apply (inv_rl _ _ HI). exists a. split; [exact Ha|apply loaded_rholds; exact Hld].
+Qed.
